@@ -1,8 +1,61 @@
 import AFV.Driver.Proto
+import AFV.Driver.NestJson
+import AFV.Spec.FusedPeak
+import AFV.Spec.PeakSingle
 namespace AFV.Driver.C06
-open Lean AFV.Proto
+open Lean AFV.Proto AFV.Driver.NestJson AFV.FusedPeak
 
-/-- Handler for property C06 requests (stub: not implemented yet). -/
-def handle (_req : Json) : Json := err "unimplemented"
+def pnode? (j : Json) : Option PNode := do
+  let a ← getArr? j
+  if a.size == 0 then none else
+  match getStr? a[0]! with
+  | some "S" => if a.size != 5 then none else do
+      pure (.storage (← getNat? a[1]!) (← getNat? a[2]!) (← natList? a[3]!) (← getBool? a[4]!))
+  | some "L" => if a.size != 4 then none else do pure (.loop (← getNat? a[1]!) (← getNat? a[2]!) (← getNat? a[3]!))
+  | _ => none
+
+def treeFuel? : Nat → Json → Option Tree
+  | 0, _ => none
+  | fuel + 1, j => do
+    let pre ← ((field? j "pre").bind getArr?).bind (fun a => a.toList.mapM pnode?)
+    match field? j "e", field? j "bs" with
+    | some e, none => do pure (.leaf pre (← getNat? e))
+    | none, some bs => do
+      let l ← getArr? bs
+      let ts ← l.toList.mapM (treeFuel? fuel)
+      pure (.seq pre ts)
+    | _, _ => none
+
+def listOf? {α : Type} (f : Json → Option α) (j : Json) : Option (List α) := do
+  let a ← getArr? j
+  a.toList.mapM f
+
+def fworkload? (j : Json) : Option Workload := do
+  let bounds ← (field? j "bounds").bind natList?
+  let einsums ← (field? j "einsums").bind (listOf? natList?)
+  let rvs ← (field? j "tensorRvs").bind (listOf? natList?)
+  let bits ← (field? j "bits").bind (listOf? (listOf? getRat?))
+  let ni ← (field? j "ninst").bind getRat?
+  pure { bounds := bounds, einsums := einsums, tensorRvs := rvs, bits := bits, nInstances := ni }
+
+/-- ops:
+  {"op":"eval", …}                                               as C05 (single Einsum: analytic usage)
+  {"op":"peak","workload":W,"tree":T,"levels":n}                 → [[p,q],…]  peak bits per memory level (reference timeline)
+  {"op":"peaksingle","arch":…,"workload":…,"mapping":…}          → {"wf":b,"notoll":b,"holds":b}  the instance of
+        `AFV.C06.PeakSingleStatement` (reported bits of every memory = reference peak of the one-leaf tree) -/
+def handle (req : Json) : Json :=
+  match (field? req "op").bind getStr? with
+  | some "eval" => evalReply req
+  | some "peak" =>
+    match (field? req "workload").bind fworkload?, (field? req "tree").bind (treeFuel? 16), (field? req "levels").bind getNat? with
+    | some w, some t, some n => Json.arr ((List.range n).map (fun l => ofRat (peak w t l))).toArray
+    | _, _, _ => err "malformed"
+  | some "peaksingle" =>
+    match (field? req "arch").bind arch?, (field? req "workload").bind workload?, (field? req "mapping").bind mapping? with
+    | some arch, some (wq, wn), some m =>
+      Json.mkObj [("wf", Json.bool (AFV.Nest.WF arch wn m)), ("notoll", Json.bool (AFV.PeakSingle.noToll m)),
+                  ("holds", Json.bool (AFV.PeakSingle.peakSingleCheck arch wq wn m))]
+    | _, _, _ => err "malformed"
+  | _ => err "bad-op"
 
 end AFV.Driver.C06
